@@ -285,15 +285,20 @@ func selftestHooks() {
 					bad = append(bad, fmt.Sprintf("%s:%d: %s  (no simAfterUnlock after it)", n, i+1, t))
 				}
 			case strings.HasPrefix(t, "go func()") || (strings.HasPrefix(t, "go ") && strings.HasSuffix(t, ")")):
+				// since hook H9 goroutines are started through simGo (their start is a
+				// schedule point); a bare go statement is an unhooked goroutine
+				ngo++
+				bad = append(bad, fmt.Sprintf("%s:%d: %s  (goroutine not started through simGo)", n, i+1, t))
+			case strings.HasPrefix(t, "simGo("):
 				ngo++
 				// the body (or the named function) must call simTaskBegin
 				body := ""
-				if strings.HasPrefix(t, "go func()") {
+				if strings.HasPrefix(t, "simGo(func()") {
 					for j := i + 1; j < len(lines) && j < i+8; j++ {
 						body += lines[j]
 					}
 				} else {
-					name := strings.TrimSuffix(strings.TrimPrefix(t, "go "), "()")
+					name := strings.TrimSuffix(strings.TrimPrefix(t, "simGo("), ")")
 					if k := strings.LastIndexByte(name, '.'); k >= 0 {
 						name = name[k+1:]
 					}
